@@ -381,6 +381,20 @@ def answer (line : String) : String :=
       match i32? y, monthOfTok m with
       | some y, some m => showShape c y m
       | _, _ => "BADREQ"
+  | ["shape_eq", c1, y1, m1, c2, y2, m2] => withCal c1 fun a => withCal c2 fun b =>
+      match i32? y1, monthOfTok m1, i32? y2, monthOfTok m2 with
+      | some y1, some m1, some y2, some m2 =>
+        let sa := a.monthShape y1 m1
+        let sb := b.monthShape y2 m2
+        let eq := match sa, sb with
+          | some x, some y => x.beq y
+          | none, none => true
+          | _, _ => false
+        let key (o : Option MonthShape) : List Int := match o with
+          | some x => 1 :: x.hashKey
+          | none => [0]
+        s!"{b01 eq} {b01 (decide (key sa = key sb))}"
+      | _, _, _, _ => "BADREQ"
   | ["shapeq", ct, y, m, x] => withCal ct fun c =>
       match i32? y, monthOfTok m, u32? x with
       | some y, some m, some x => showShapeQ c y m x
